@@ -1859,3 +1859,23 @@ func (h H) releaseWaitsSnapshot(rule string) {
 	}
 	h.C.Floor(rule+" (returns of Raft.release)", n, 1)
 }
+
+// stepDownOnCommitOnlyWhenNotVoter (C17.7b): the step-down in
+// Raft.setCommitIndex is for a leader that the committed configuration no
+// longer lists as voter, and for nothing else — a leader that stepped down at
+// every configuration commit would make each membership change cost an
+// election.
+func (h H) stepDownOnCommitOnlyWhenNotVoter(rule string) {
+	fn := h.fn("raft:(*Raft).setCommitIndex")
+	fi := h.P.Info(fn)
+	ss := h.fn("raft:(*Raft).setState")
+	n := 0
+	for k, c := range h.P.CallsTo(fn, ss) {
+		n++
+		r := fi.MustCross(c.(ssa.Instruction), func(a core.Atom) bool {
+			return a.Op == "false" && a.L == "(Config).isVoter(Raft.storage.configs.Latest, Raft.storage.nid)"
+		})
+		h.C.Check(rule, h.site(fn, ss, k), r.OK, h.pos(c.(ssa.Instruction)), "the node changes state when a configuration commits although it may still be a voter of it: "+r.Witness)
+	}
+	h.C.Floor(rule+" (state changes in setCommitIndex)", n, 1)
+}
